@@ -54,6 +54,9 @@ func NewWriteMultipleRegistersRequestTCP(unitID uint8, startAddress uint16, data
 	if registerByteCount%2 != 0 {
 		return nil, errors.New("data length must be even number of bytes")
 	}
+	if registerByteCount/2 > 124 { // checked before narrowing to uint16: a 131074 byte payload must not wrap around to 1 register
+		return nil, fmt.Errorf("registers count out of range (1-124): %v", registerByteCount/2)
+	}
 	registerCount := uint16(registerByteCount / 2)
 	if registerCount == 0 || registerCount > 124 {
 		return nil, fmt.Errorf("registers count out of range (1-124): %v", registerCount)
@@ -142,6 +145,9 @@ func NewWriteMultipleRegistersRequestRTU(unitID uint8, startAddress uint16, data
 	registerByteCount := len(data)
 	if registerByteCount%2 != 0 {
 		return nil, errors.New("data length must be even number of bytes")
+	}
+	if registerByteCount/2 > 124 { // checked before narrowing to uint16: a 131074 byte payload must not wrap around to 1 register
+		return nil, fmt.Errorf("registers count out of range (1-124): %v", registerByteCount/2)
 	}
 	registerCount := uint16(registerByteCount / 2)
 	if registerCount == 0 || registerCount > 124 {
